@@ -695,6 +695,16 @@ def _assist_model(repo, order='fwd'):
     r, exc = st.assist('import pkg.a\n', (1, 12))
     rec('pkg', 'import pkg.a| proposes the packages of pkg', not exc and r == ('a', ['aa', 'zz']),
         '`import pkg.a|` must give ("a", sorted sub-packages of pkg); got %s' % (exc or (r,)))
+    # several modules on one import statement, with and without white space after the comma, aliases in between
+    for left in ('import os,pkg.a', 'import os, pkg.a', 'import os,\tpkg.a', 'import pkg.alpha as al,pkg.a', 'import os;import sys,pkg.a',
+                 '    import os,pkg.a'):
+        st.reset()
+        st.packages = {'pkg': ['zz', 'aa'], 'os': ['path']}
+        st.marked_import = ('pkg.a', None)
+        r, exc = st.assist(left + '\n', (1, len(left)))
+        rec('pkg', '%r proposes the packages of pkg' % left, not exc and r == ('a', ['aa', 'zz']),
+            'with the cursor at the end of %r the sub-packages of pkg must be proposed with the prefix "a" (the module under the cursor '
+            'is pkg.a, whatever precedes it on the line); got %s' % (left, exc or (r,)), '%r -> children of pkg' % left)
     st.reset()
     st.packages = {'pkg': ['zz', 'aa']}
     st.marked_import = ('pkg.abcd', None)
@@ -1989,3 +1999,53 @@ def descriptor_model(repo):
                 env['FuncObject'] = saved
         return out
     return repo.memo('descriptor-model', build)
+
+
+# ---------------------------------------------------------------------------
+# Project.list_packages on a modelled file system
+# ---------------------------------------------------------------------------
+
+def list_packages_model(repo):
+    """Project.list_packages interpreted on a modelled file system with the suffix table importlib uses on CPython/Linux
+    (tagged extension suffixes before '.so'), two source roots, one sys.path entry and some loaded modules, under both set
+    orders.  Tags: 'lp' (the set of proposed names), 'lp-ident' (every proposed name is an identifier)."""
+    def build():
+        PROJECT = 'supp/project.py'
+        facts = get_facts(repo)
+        proj = facts.classes.get('Project')
+        if proj is None:
+            raise AnalysisError('Project vanished')
+        itl = Interp(repo, facts)
+        itl.module_env(PROJECT)['SUFFIXES'] = ['.py', '.pyc', '.cpython-312-x86_64-linux-gnu.so', '.abi3.so', '.so']
+        itl.sys_path = ['<P1>']
+        itl.sys_modules = {'pkg.loaded': 1, 'pkg.loaded.deep': 1, 'pkgother.x': 1, 'other': 1, 'pkg': 1}
+        itl.fs_dirs = {'<S1>/pkg': ['a.py', '__init__.py', 'sub', 'data', 'c.txt', 'b.so', 'a.so', 'speed.cpython-312-x86_64-linux-gnu.so',
+                                    'stable.abi3.so', 'old.pyc'], '<P1>/pkg': ['z.py'],
+                       '<S1>': ['top.py', 'pkg'], '<S2>': [], '<P1>': ['pkg', 'lib.so']}
+        itl.fs = {'<S1>/pkg/sub/__init__.py', '<S1>/pkg/__init__.py', '<P1>/pkg/__init__.py'}
+        itl.reset_path([])
+        out = []
+        for order in ('fwd', 'rev'):
+            itl.set_order = order
+            for root, want in (('pkg', {'a', 'b', 'sub', 'z', 'loaded', 'speed', 'stable', 'old'}),
+                               ('', {'pkg', 'pkgother', 'other', 'top', 'lib'})):
+                try:
+                    p = itl.instantiate(proj, [['<S1>', '<S2>']], {})
+                    got = itl.call(itl.getattr(p, 'list_packages'), [root], {})
+                    got = set(itl.iterate(got))
+                    exc = None
+                except InterpRaise as e:
+                    got, exc = None, e
+                except Uninterpretable as e:
+                    raise AnalysisError('list_packages is outside the interpretable subset: %s' % e)
+                out.append(('lp', 'list_packages(%r) walks sources, sys.path and sys.modules [%s]' % (root, order), got == want,
+                            'on the modelled file system list_packages(%r) must give %s (modules of every root with a suffix of the '
+                            'shared table, packages with __init__.py, loaded modules); got %s' % (root, sorted(want), exc or sorted(got)),
+                            'list_packages(%r) = %s' % (root, sorted(want))))
+                bad = sorted(x for x in (got or ()) if not (isinstance(x, str) and x.isidentifier()))
+                out.append(('lp-ident', 'list_packages(%r) proposes identifiers [%s]' % (root, order), got is not None and not bad,
+                            'module names proposed on an import line must be identifiers: list_packages(%r) gives %s on a directory '
+                            'holding a.py, b.so, speed.cpython-312-x86_64-linux-gnu.so, stable.abi3.so, old.pyc' % (root, exc or bad),
+                            'list_packages(%r) gives identifiers' % root))
+        return out
+    return repo.memo('list-packages-model', build)
